@@ -220,6 +220,10 @@ package drpcmanager
 //@   modifies *
 //@   ensures [man] result != nil && result.wr != nil && result.wr.w == tr && result.tr == tr
 //@   ensures [C01,C02,C12.channels] chancap(result.pkts) == 0 && chancap(result.streams) == 0 && chancap(result.sfin) == 1
+//@   site (*Chan).Make#1 assert [C02.one-stream-at-a-time] arg1 == 1
+//@   site (*Chan).Make#2 assert [C12.one-ack-slot] arg1 == 1
+//@   site SetStreamFin assert [C12.streams-report-fin] arg1 == m.sfin && arg1 != nil
+//@   site SetStreamTransport assert [C05.streams-know-transport] arg1 == tr
 //@   check [C12.two-goroutines] eventCount("go:") == 2 && eventCount("go:(*Manager).manageReader") == 1 && eventCount("go:(*Manager).manageStreams") == 1
 
 // Set once by NewWithOptions, never assigned again (checked by a scan of every function of the package).
